@@ -65,6 +65,10 @@ func (ed Editor) AlignOpts(align Alignment, width int, opts Options) Editor {
 				// need to get a block with suf at end of last line and pre
 				// at end of first line
 				bl = tb.New(para.Add(sepEnd), gem.New(opts.LineSeparator))
+				if bl.Len() == 0 {
+					// nothing to align in an empty paragraph
+					return []gem.String{para}
+				}
 				endLineIdx := bl.Len() - 1
 				bl.Set(0, bl.Line(0).Add(sepStart))
 				bl.Apply(func(idx int, line string) []string {
@@ -82,6 +86,10 @@ func (ed Editor) AlignOpts(align Alignment, width int, opts Options) Editor {
 				// need to get a block with suf at start of last line and pre
 				// at start of first line
 				bl = tb.New(sepStart.Add(para), gem.New(opts.LineSeparator))
+				if bl.Len() == 0 {
+					// nothing to align in an empty paragraph
+					return []gem.String{para}
+				}
 				endLineIdx := bl.Len() - 1
 				bl.Set(endLineIdx, sepEnd.Add(bl.Line(endLineIdx)))
 				bl.Apply(func(idx int, line string) []string {
@@ -99,6 +107,10 @@ func (ed Editor) AlignOpts(align Alignment, width int, opts Options) Editor {
 			case Center:
 				// dont pre-add anyfin so center can work its magic
 				bl = tb.New(para, gem.New(opts.LineSeparator))
+				if bl.Len() == 0 {
+					// nothing to align in an empty paragraph
+					return []gem.String{para}
+				}
 				bl.Apply(func(idx int, line string) []string {
 					return []string{manip.AlignLineCenter(gem.New(line), width).String()}
 				})
